@@ -71,7 +71,13 @@ func runC13(c *Ctx, r *Report, tier string) {
 					// the rebuilt map entry: key + ":" + unquoted
 					al := v.(*ssa.Alloc)
 					stores, _ := c.cellStores(al)
-					good := len(stores) == 1 && strings.HasPrefix(c.term(stores[0].Val), `((idx(call:strings.SplitN(iniValue.Value(new:iniValue), ":", 2), 0) + ":") + idx(call:strings.SplitN(iniValue.Value(new:iniValue), ":", 2), 1))`)
+					tv := ""
+					if len(stores) == 1 {
+						tv = c.term(stores[0].Val)
+					}
+					// key + ":" + unquoted value part
+					good := len(stores) == 1 && strings.HasPrefix(tv, `((before(iniValue.Value(new:iniValue), ":") + ":") + `) &&
+						(strings.Contains(tv, `call:strconv.Unquote(after(iniValue.Value(new:iniValue), ":"))#0`) || strings.HasSuffix(tv, `+ after(iniValue.Value(new:iniValue), ":"))`))
 					if good {
 						origins = append(origins, "&(key:unquoted)")
 					} else {
@@ -107,13 +113,14 @@ func runC13(c *Ctx, r *Report, tier string) {
 			}
 		}
 	}
-	nSplit := 0
-	for _, s := range c.instrs(ip, c.isCallTo("strings.SplitN", "strings.Split", "strings.Cut", "strings.Fields")) {
-		nSplit++
-		t := c.term(s.(*ssa.Call))
-		r.Check(t == `call:strings.SplitN(iniValue.Value(new:iniValue), ":", 2)`, "FUNNEL", in_, "map value split", c.ipos(s), "SplitN(value, \":\", 2): as convert does for the command line", "map value split with "+t)
+	// the unquoted part is the text after the FIRST colon
+	nUq := 0
+	for _, s := range c.instrs(ip, c.isCallTo("strconv.Unquote")) {
+		nUq++
+		t := c.term(s.(*ssa.Call).Call.Args[0])
+		r.Check(t == `after(iniValue.Value(new:iniValue), ":")`, "FUNNEL", in_, "map value part: text after the first colon", c.ipos(s), "Unquote(after(value, \":\")): as convert splits on the command line", "the quoted map value is taken from "+trunc(t, 100))
 	}
-	r.Check(nSplit == 1, "FUNNEL", in_, "one split", c.pos(ip.Pos()), "one", fmt.Sprintf("%d", nSplit))
+	r.Check(nUq == 1, "FUNNEL", in_, "one unquote of a map value", c.pos(ip.Pos()), "one", fmt.Sprintf("%d", nUq))
 	// no store to reflect values / direct conversion in parse
 	var direct []string
 	for _, s := range c.instrs(ip, c.isCallTo("convert", "(*Option).call", "(reflect.Value).Set", "(*Option).empty")) {
